@@ -102,6 +102,8 @@ def batch(ctx, n, tagged_every):
         run_one(ctx, c)
         if k % tagged_every == 0:
             tagged_positions(ctx, c)
+        if k % tagged_every == 1:   # the same positions and the zero variance of alpha at the first location with fix_gamma
+            tagged_positions(ctx, c, {"fix_gamma": (float(c.truth["gamma"]), 0.25)})
 
 
 def run(ctx):
